@@ -14,7 +14,7 @@ Init ==
     /\ desc \in MCFamily
     /\ orc = Oracle(desc, TRUE)
     /\ pc = "idle" /\ prune = FALSE /\ nodes = desc.tr
-    /\ prob = Null /\ rstrat = Null /\ rew = Null /\ fstrat = Null /\ res = Null
+    /\ prob = Null /\ rstrat = Null /\ rew = Null /\ fstrat = Null /\ res = Null /\ ro = Null
     /\ hist = [b \in BOOLEAN |-> Null]
 
 Spec == Init /\ [][IdealNext]_svars /\ Fair
